@@ -53,6 +53,11 @@ class World(object):
         self.phi3 = m.ForAll([x], m.Or(m.LE(x, y), m.Exists([y], m.Equals(m.Function(f, [y]), x))))
         self.phi4 = m.And(m.Equals(m.BVAdd(b, m.BVMul(c, m.BV(1, 4))), m.BVNot(b)),
                           m.Equals(m.Select(m.Store(a, x, y), m.Plus(x, m.Int(1))), y), m.Iff(p, m.Ite(q, le, p)))
+        # long-lived substitution maps the validation of substitute() rejects: a value that belongs to another
+        # environment, a function symbol as a value.  The SAME dict objects are passed again by a probe.
+        other = pysmt.environment.Environment()
+        self.bad_map_foreign = {p: other.formula_manager.Symbol("zf", BOOL)}
+        self.bad_map_funsym = {x: f}
         self.known = set(m.symbols)
 
     # ---- helpers
@@ -165,6 +170,8 @@ class World(object):
             ("parse truncated", lambda: self._call(lambda: self.parse_smt("(assert (and p (< x y)))(assert (or q"), "terms")),
             ("parse unknown op", lambda: self._call(lambda: self.parse_smt("(push 1)(assert (foo p q))(assert p)"), "terms")),
             ("hr parse error", lambda: self._call(lambda: self.hr.parse("(x + ) <= y"))),
+            ("subst map with a foreign value", lambda: self._call(lambda: self.phi1.substitute(self.bad_map_foreign))),
+            ("subst map with a function symbol as value", lambda: self._call(lambda: self.phi2.substitute(self.bad_map_funsym))),
             # failing scripts that have already changed the parser's state when they fail: a logic under which
             # numerals are Reals, a definition, an open let binding
             ("parse LRA script, unknown command", lambda: self._call(lambda: self.parser.get_script(io.StringIO(
@@ -193,6 +200,10 @@ class World(object):
             ("invalid constant spellings", lambda: self._call(lambda: " ".join(self._outcome(fn) for fn in (
                 lambda: m.Int(2.0), lambda: m.Int(0.0), lambda: m.Int(False), lambda: m.Int(Fraction(2)), lambda: m.Int(True), lambda: m.Real(True), lambda: m.Int(7.0),
                 lambda: m.Real("2"))), "text"), False),
+            # (before any other probe substitutes: a substituter that remembered the last map it looked at would be reset)
+            ("subst with the map object rejected last", lambda: self._call(lambda: " ".join(self._outcome(fn) for fn in (
+                lambda: self.phi2.substitute(self.bad_map_foreign), lambda: self.phi4.substitute(self.bad_map_funsym),
+                lambda: self.phi1.substitute(self.bad_map_funsym), lambda: self.phi1.substitute(self.bad_map_foreign))), "text"), False),
             ("subst {x:0} phi1", lambda: self._call(lambda: self.phi1.substitute({x: m.Int(0)})), True),
             ("subst {y:x+1,p:q} phi4", lambda: self._call(lambda: self.phi4.substitute({y: m.Plus(x, m.Int(1)), p: q})), True),
             ("simplify(phi2)", lambda: self._call(lambda: self.phi2.simplify()), True),
